@@ -131,9 +131,14 @@ func RunCheck(t *testing.T, spec CheckSpec) {
 		fmt.Printf("replay: violation reproduced in %d of %d executions\n", hits, n)
 		return
 	}
+	fixed := LoadRegressions(spec.Prop)
 	if spec.Fixed != nil {
+		fixed = append(fixed, spec.Fixed()...)
+	}
+	if len(fixed) > 0 {
+		r.Extra("sum_regression_and_grid_plans", len(fixed))
 		t.Run("fixed", func(t *testing.T) {
-			for _, p := range spec.Fixed() {
+			for _, p := range fixed {
 				if msg := judge(t, r, &spec, p); msg != "" {
 					t.Errorf("%s", msg)
 				}
